@@ -6,6 +6,8 @@ import (
 	"database/sql/driver"
 	"fmt"
 	"strings"
+	"sync/atomic"
+	"time"
 
 	"github.com/alicebob/sqlittle"
 	sdb "github.com/alicebob/sqlittle/db"
@@ -258,10 +260,21 @@ type verifStmt struct{ *sdriver.Statement }
 
 func (s verifStmt) Close() error { return nil }
 
+var driverQueryCalls atomic.Int64
+
 func driverQueryCB(h *sqlittle.DB, q string, add func(row []interface{}) bool, _ *collector) error {
 	pool := sql.OpenDB(verifConnector{h})
 	defer pool.Close()
-	rows, err := pool.Query(q)
+	// every second call carries a deadline that never arrives (a century away, so that neither a stopped clock nor a
+	// snapshot of the machine can reach it): the driver derives its producer's context from the caller's, and a query
+	// under a deadline has to behave like one without
+	ctx := context.Background()
+	if driverQueryCalls.Add(1)%2 == 0 {
+		var cancel context.CancelFunc
+		ctx, cancel = context.WithDeadline(ctx, time.Now().Add(100*365*24*time.Hour))
+		defer cancel()
+	}
+	rows, err := pool.QueryContext(ctx, q)
 	if err != nil {
 		return err
 	}
